@@ -21,6 +21,13 @@
 //! be at the limit, one byte over, or far over, and on UNKNOWN long routes whose MethodNotFound
 //! reply is itself oversized. Same oracle; in particular the ec 9 replacement must itself fit the
 //! limit (a reply that echoes nothing is ~180 bytes, and every limit used is ≥ 1 KiB).
+//!
+//! Queued-message family (`c17_burst.rs`, stage "queued", part of "main" and "server"): scripts that
+//! put several messages into a connection's outbound queue before its writer task runs, with the
+//! oversized one NOT at the head — a handler pushing notifies and answering, runs of k notifies,
+//! back-to-back registry broadcasts to 1..3 peers, requests pipelined in one flush (inline, off-reader,
+//! proxy) — with the server on a current-thread and on a multi-thread runtime and
+//! `with_outbound_capacity` varied. Same oracle, plus queue order of the delivered messages.
 
 use crate::common::*;
 use crate::oracle::{self, SpecHeader};
@@ -38,6 +45,9 @@ use std::sync::{Arc, Mutex};
 use std::time::{Duration, Instant};
 use tokio_tungstenite::tungstenite::Message as WsMsg;
 use tokio_tungstenite::tungstenite::protocol::WebSocketConfig;
+
+#[path = "c17_burst.rs"]
+mod burst;
 
 type Ws = tokio_tungstenite::WebSocketStream<tokio::net::TcpStream>;
 
@@ -379,6 +389,8 @@ struct Acc {
     counts: BTreeMap<String, u64>,
     max_seen: usize,
     distinct: Vec<(Path, Option<usize>, usize, u32, usize, bool)>,
+    /// identities of the queued-message cases (c17_burst.rs)
+    distinct_h: Vec<u64>,
     evals: u64,
     samples: Vec<Value>,
 }
@@ -1210,7 +1222,10 @@ pub fn run(args: &Args) -> Report {
          48+query+body): a raw tungstenite peer logs every binary message; none exceeds the limit; ≤ limit ⇒ byte-identical to \
          the oracle frame; > limit ⇒ response replaced by ec 9 with the same id / notify dropped and reported to on_error / \
          client call fails with MessageTooLarge and nothing is sent; a follow-up call works after every case. \
-         distinct = (path, limit, wire size, variant)",
+         Queued-message scripts (several messages enqueued before the writer task runs, the oversized one not at the head: \
+         handler notifies + response, notify runs, back-to-back broadcasts, requests pipelined in one flush; server on a \
+         current-thread / multi-thread runtime, outbound capacity varied): same oracle and delivered messages keep queue order. \
+         distinct = (path, limit, wire size, variant) / (script kind, limit, runtime, capacity, script)",
     );
     let rt = match tokio::runtime::Builder::new_multi_thread().worker_threads(8).enable_all().build() {
         Ok(r) => r,
@@ -1219,12 +1234,21 @@ pub fn run(args: &Args) -> Report {
             return rep;
         }
     };
+    let mut bursts: Vec<burst::BGroup> = vec![];
     let groups = match &args.replay {
-        None => plan(args),
+        None => {
+            if args.stage != "client" {
+                bursts = burst::plan(args);
+            }
+            if args.stage == "queued" { vec![] } else { plan(args) }
+        }
         Some(p) => {
             // replay one witness: the "replay" object of a violation
             let v: Option<Value> = std::fs::read_to_string(p).ok().and_then(|s| serde_json::from_str(&s).ok());
-            let g = v.and_then(|v| {
+            if let Some(b) = v.as_ref().filter(|v| v["burst"] == true).and_then(burst::from_replay) {
+                bursts.push(b);
+            }
+            let g = v.filter(|_| bursts.is_empty()).and_then(|v| {
                 Some(Group {
                     path: *PATHS.iter().find(|x| Some(x.name()) == v["path"].as_str())?,
                     limit: v["limit"].as_u64().map(|x| x as usize),
@@ -1241,6 +1265,7 @@ pub fn run(args: &Args) -> Report {
             });
             match g {
                 Some(g) => vec![g],
+                None if !bursts.is_empty() => vec![],
                 None => {
                     rep.inconclusive(format!("cannot read replay case {p}"));
                     return rep;
@@ -1248,11 +1273,21 @@ pub fn run(args: &Args) -> Report {
             }
         }
     };
+    // the servers of the multi-thread queued-message groups live on their own runtime
+    let srv_rt = match tokio::runtime::Builder::new_multi_thread().worker_threads(4).thread_name("c17-mt-server").enable_all().build() {
+        Ok(r) => r,
+        Err(e) => {
+            rep.inconclusive(format!("tokio server runtime: {e}"));
+            return rep;
+        }
+    };
     let hb = Arc::new(Heartbeat::start());
     quiet_panics(true);
     let heavy = Arc::new(tokio::sync::Semaphore::new(2));
     let light = Arc::new(tokio::sync::Semaphore::new(14));
-    let accs: Vec<(Group, Option<Acc>)> = rt.block_on(async {
+    let thorough = args.thorough();
+    // (path name, group label, result)
+    let accs: Vec<(String, String, Option<Acc>)> = rt.block_on(async {
         let mut set = tokio::task::JoinSet::new();
         for g in groups {
             let (hb, heavy, light) = (hb.clone(), heavy.clone(), light.clone());
@@ -1267,7 +1302,15 @@ pub fn run(args: &Args) -> Report {
                     }
                 };
                 let acc = tokio::time::timeout(budget, fut).await.ok();
-                (g, acc)
+                (g.path.name().to_string(), format!("{} / limit {}", g.path.name(), limit_name(g.limit)), acc)
+            });
+        }
+        for g in bursts {
+            let (hb, light, mt) = (hb.clone(), light.clone(), srv_rt.handle().clone());
+            set.spawn(async move {
+                let _p = light.acquire_owned().await;
+                let acc = tokio::time::timeout(Duration::from_secs(240), burst::run_group(&g, &hb, &mt, thorough)).await.ok();
+                (g.kind.name().to_string(), g.label(), acc)
             });
         }
         let mut out = vec![];
@@ -1280,21 +1323,26 @@ pub fn run(args: &Args) -> Report {
     });
     quiet_panics(false);
     rt.shutdown_timeout(Duration::from_secs(3));
+    srv_rt.shutdown_timeout(Duration::from_secs(3));
 
     let mut per_path: BTreeMap<String, u64> = BTreeMap::new();
     let mut max_by_limit: BTreeMap<String, usize> = BTreeMap::new();
     let mut counts: BTreeMap<String, u64> = BTreeMap::new();
-    for (g, acc) in accs {
+    for (path, label, acc) in accs {
         let Some(acc) = acc else {
-            rep.inconclusive(format!("group {} / limit {} exceeded its wall budget", g.path.name(), limit_name(g.limit)));
+            rep.inconclusive(format!("group {label} exceeded its wall budget"));
             continue;
         };
         rep.evaluations += acc.evals;
         for d in &acc.distinct {
             rep.distinct(d);
         }
-        *per_path.entry(g.path.name().to_string()).or_insert(0) += acc.evals;
-        let e = max_by_limit.entry(limit_name(g.limit)).or_insert(0);
+        for d in &acc.distinct_h {
+            rep.distinct(&("queued", d));
+        }
+        *per_path.entry(path).or_insert(0) += acc.evals;
+        let lim = label.split("limit ").nth(1).and_then(|x| x.split(' ').next()).unwrap_or("?").to_string();
+        let e = max_by_limit.entry(lim).or_insert(0);
         *e = (*e).max(acc.max_seen);
         for (k, v) in acc.counts {
             *counts.entry(k).or_insert(0) += v;
@@ -1303,7 +1351,7 @@ pub fn run(args: &Args) -> Report {
             rep.violation(sig, d, r);
         }
         for i in acc.inconcl {
-            rep.inconclusive(format!("{i} [{} limit {}]", g.path.name(), limit_name(g.limit)));
+            rep.inconclusive(format!("{i} [{label}]"));
         }
         for s in acc.samples {
             rep.sample(s);
@@ -1315,7 +1363,13 @@ pub fn run(args: &Args) -> Report {
     rep.set("cases_per_path", json!(per_path));
     rep.set("largest_message_observed_by_limit", json!(max_by_limit));
     rep.set("heartbeat_max_gap_ms", json!(hb.max_gap_ms()));
-    let need = ["within_limit_messages_byte_identical", "cases_over_limit", "messages_exactly_at_limit_delivered"];
+    let need: &[&str] = if args.stage == "queued" {
+        &["within_limit_messages_byte_identical", "oversized_messages_queued_not_at_head", "queued_behind_oversized_notifies_dropped", "queued_behind_oversized_responses_replaced_by_ec9"]
+    } else if args.stage == "client" {
+        &["within_limit_messages_byte_identical", "cases_over_limit", "messages_exactly_at_limit_delivered"]
+    } else {
+        &["within_limit_messages_byte_identical", "cases_over_limit", "messages_exactly_at_limit_delivered", "oversized_messages_queued_not_at_head"]
+    };
     if args.replay.is_none() && rep.violations.is_empty() && need.iter().any(|k| counts.get(*k).copied().unwrap_or(0) == 0) {
         rep.inconclusive("too few events: no delivered, at-limit or over-limit case was observed");
     }
